@@ -1430,8 +1430,9 @@ def correspond(ctx):
       trusted_base=['correspondence harness corr_C06.py (sampled inputs; float64 1e-9; exact-rational for jac_limit/_imp_aref)',
                     'harness/jaxpr_eval.py + three private extensions (symbolic bool->int, element-wise natural pow) evaluating the jaxpr of '
                     'jac_limit over Fraction; self-checked against the jitted function on every case',
-                    'jaxopt.ProjectedGradient: MODELLED as a parameter (`solver a b`); the push-only theorem assumes it returns x >= 0 '
-                    '(min x measured on every run: extra.correspondence.solver_min_x); force_zero_of_inactive assumes nothing about it',
+                    'jaxopt.ProjectedGradient as configured by constraint.force (least-squares objective, FISTA, backtracking line search, '
+                    'tolerance stop): transcribed in Model/C06Solver.lean (pgSolve), proved to return x >= 0 for every input and tied to the '
+                    'real solver on synthetic problems on every run (iteration counts equal, values 1e-9); IEEE round-off not modelled',
                     'mjx.collision / contact.get: contacts are DATA for the models (C10 ties contact.get)',
                     'scan.tree (reverse) of point_jacobian and scan.link_types: Layer B stage 2 proves the grouped code equal to the recursion/slicing for the additive carry functions; the reverse scan of point_jacobian is tied by the C01/C06 correspondences',
                     'whole-step models Spring.step / Positional.step are tied by C04\'s correspondence; C06 ties every function its theorems mention '
